@@ -728,7 +728,13 @@ class Repo:
             if isinstance(e.value, ast.Name) and e.value.id in ('self', 'cls') and cls is not None:
                 hit = cls.find_attr(e.attr)
                 if hit:
-                    return self.fold(hit[1], hit[0].module, hit[0], None, d)
+                    try:
+                        return self.fold(hit[1], hit[0].module, hit[0], None, d)
+                    except NotConst:
+                        v = self._peval_class_attr(hit[0], e.attr)
+                        if v is _NOVALUE:
+                            raise
+                        return v
                 if cls.find_method(e.attr):
                     return BoundMethod(e.attr)
                 raise NotConst(ast.unparse(e))
@@ -866,18 +872,28 @@ class Repo:
         if isinstance(r, tuple) and r and r[0] == 'classattr':
             _, c, attr = r
             self.consulted[c.module.relpath] = c.module.sha256
-            return self.fold(c.attrs[attr], c.module, c, None, d)
+            try:
+                return self.fold(c.attrs[attr], c.module, c, None, d)
+            except NotConst:
+                v = self._peval_class_attr(c, attr)
+                if v is _NOVALUE:
+                    raise
+                return v
         return r
 
-    def _peval_module_value(self, mod: Module, name: str):
+    def _peval_class_attr(self, c: 'ClassInfo', name: str):
+        """a class-level constant computed by package code (``fmt = _layout(*fields)``): constants propagated through it"""
+        return self._peval_module_value(None, name, cls=c)
+
+    def _peval_module_value(self, mod: Optional[Module], name: str, cls: Optional['ClassInfo'] = None):
         from .peval import CannotEval, PEval, Raised, UNKNOWN, Tagged
         if getattr(self, '_peval_busy', False):
             return _NOVALUE
         self._peval_busy = True
         try:
             try:
-                v = PEval(self).module_value(mod, name)
-            except (CannotEval, Raised, AnalysisError, RecursionError):
+                v = PEval(self).class_attr(cls, name) if cls is not None else PEval(self).module_value(mod, name)
+            except (CannotEval, Raised, AnalysisError, RecursionError, KeyError):
                 return _NOVALUE
         finally:
             self._peval_busy = False
